@@ -58,7 +58,8 @@ def list_stream(ctx, res, n):
         s = cc.Schema()
         try:
             s.lst = cc.ListField(F.build_field(item, tmp))
-            s.other = cc.ListField(F.build_field(dict(item), tmp))
+            # a sibling list of the same kind without the constraints: its proxy may hold items this field must reject or normalise
+            s.other = cc.ListField(F.build_field({"k": item["k"], "required": False}, tmp))
         except Exception:  # noqa
             continue
         cfg = s()
@@ -104,8 +105,18 @@ def list_stream(ctx, res, n):
             L = len(proxy)
             ik = rng.choice(["list", "list", "tuple", "iter", "gen", "set", "proxy_same", "proxy_other"])
             items = [cand() for _ in range(rng.randint(0, 3))]
-            if ik in ("proxy_same", "proxy_other"):
+            if ik == "proxy_same":
                 items = [fld.validate(cfg, rng.choice(pool_ok)) for _ in items]      # what such a proxy holds: validated items
+            if ik == "proxy_other":
+                held = []
+                for x in items:
+                    try:
+                        h = s._fields["other"].field.validate(cfg, x)
+                    except Exception:  # noqa
+                        continue
+                    if h is not None and not (isinstance(h, float) and h != h):
+                        held.append(h)
+                items = held                                                          # valid for the sibling field, not necessarily for this one
             if ik == "set":
                 items = [x for x in items if hashable(x)][:1]
             op = None
